@@ -50,6 +50,8 @@ def gen_inputs(tier, rng):
     descs.append({"jobs": [typed({"a": -1}), typed({"a": -1.0})], "pseed": 2})
     descs.append({"jobs": [typed({"a": {}}), typed({"a": 1})], "pseed": 3})
     descs.append({"jobs": [typed({"a": {"x": "x"}}), typed({"a": {}})], "pseed": 4})
+    descs.append({"jobs": [typed({"a": {}, "b": 1}), typed({"a": {}, "b": 2})], "pseed": 5})
+    descs.append({"jobs": [typed({"a": {"c": {}}}), typed({"a": {"c": {"x": 1}}}), typed({"a": {"c": {}}, "b": 0})], "pseed": 6})
     return descs
 
 
